@@ -76,8 +76,10 @@ def match_known(pid, viol, known):
     for k in known.get('findings', []):
         if k.get('property') != pid:
             continue
-        if 'what' in k and k['what'] != viol['what']:
-            continue
+        if 'what' in k and k['what'] is not None:
+            whats = k['what'] if isinstance(k['what'], list) else [k['what']]
+            if viol['what'] not in whats:
+                continue
         m = k.get('match', {})
         if all(viol['mech'].get(a) == b for a, b in m.items()):
             return k
@@ -233,6 +235,7 @@ def aggregate(pid, tier, seed, mod, cases, metas, tails, problems, extra_info, t
         with open(path, 'w') as f:
             json.dump({'property': pid, 'tier': r['tier'], 'seed': r['seed'], 'shard': r['shard'],
                        'idx': r['idx'], 'cls': r['cls'], 'violation': v, 'params': r['params'],
+                       'leg': r.get('leg'),
                        'replay_cmd': f'./check {pid} --replay {path}'}, f, indent=1)
         viol_lines.append((path, v))
 
